@@ -2,6 +2,7 @@ package main
 
 import (
 	"fmt"
+	"path/filepath"
 	"go/ast"
 	"go/token"
 	"go/types"
@@ -170,7 +171,7 @@ func (e *Enc) callWrites(c *ssa.CallCommon) map[string]bool {
 
 func (e *Enc) fnWrites(fn *ssa.Function) map[string]bool {
 	if ms, ok := e.w.ModSet[fn]; ok {
-		if ct := e.cs.ByFunc[e.w.Names[fn]]; ct != nil && ct.Pure {
+		if ct := e.cs.For(e.w.Names[fn]); ct != nil && ct.Pure {
 			return map[string]bool{}
 		}
 		return ms
@@ -212,6 +213,24 @@ func (e *Enc) Encode() {
 	for _, fv := range fn.FreeVars {
 		v := e.val(fv)
 		e.assert(e.refOld(v, e.entryHeap))
+		if _, isPtr := under(fv.Type()).(*types.Pointer); isPtr && v.S == "Ref" {
+			e.assert(app("distinct", v.T, "nil")) // a free variable is the address of a captured variable
+		}
+	}
+	// package-level axioms (assumed facts about init-only package variables; listed in the trusted base)
+	for _, ax := range e.cs.Axioms {
+		if fn.Pkg == nil || filepath.Base(fn.Pkg.Pkg.Path()) != ax.Pkg {
+			continue
+		}
+		env := e.entryEnv()
+		n := len(e.unsupported)
+		t := e.evalBool(ax.Expr, env)
+		if len(e.unsupported) > n {
+			e.unsupported = e.unsupported[:n]
+			continue
+		}
+		e.assert(t)
+		e.axiomsUsed = append(e.axiomsUsed, ax.Name)
 	}
 	// implicit preconditions
 	{
@@ -227,8 +246,9 @@ func (e *Enc) Encode() {
 	if e.ct != nil {
 		env := e.entryEnv()
 		for _, r := range e.ct.Requires {
-			t := e.evalBool(r, env)
-			e.assert(t)
+			if t, ok := e.evalClause(e.ct, r, env); ok {
+				e.assert(t)
+			}
 		}
 	}
 	for _, b := range e.order {
@@ -449,7 +469,7 @@ func (e *Enc) loopHead(b *ssa.BasicBlock, li *loopInfo) {
 			keys = nil
 		}
 		for _, k := range keys {
-			if plain[k] || plain["*"] || strings.HasPrefix(k, "$") || k == "map" {
+			if plain[k] || plain["*"] || ghostPlain(k) || k == "map" {
 				e.havocKey(e.cur, k)
 				continue
 			}
@@ -1171,6 +1191,20 @@ func (e *Enc) unop(x *ssa.UnOp) {
 		r := e.define(x, t)
 		e.assert(e.typeFacts(r.T, x.Type()))
 		e.assert(e.refOld(r, e.cur))
+		if srt := e.sortOf(x.Type()); srt == "Ref" || srt == "Slice" {
+			e.loadedRefFacts(e.cur, e.keyForAddr(x.X, x.Type()), srt, v.T)
+		}
+		if fa, ok := x.X.(*ssa.FieldAddr); ok && len(e.cs.FieldAssume) > 0 {
+			if st, name := structOf(fa.X.Type()); st != nil {
+				if ax := e.cs.FieldAssume[name+"."+st.Field(fa.Field).Name()]; ax != nil {
+					env := e.entryEnv()
+					env.heap = e.cur
+					env.names["value"] = binding{r, x.Type()}
+					e.assert(e.evalBool(ax, env))
+					e.trustedUsed["assumed field fact "+name+"."+st.Field(fa.Field).Name()+": "+ax.String()] = true
+				}
+			}
+		}
 	case token.NOT:
 		e.define(x, not(v.T))
 	case token.SUB:
@@ -1511,8 +1545,9 @@ func (e *Enc) ret(x *ssa.Return) {
 	}
 	env := e.exitEnv(x)
 	for _, en := range e.ct.Ensures {
-		t := e.evalBool(en.Expr, env)
-		e.oblige("post", en.Tag, en.Tag, x.Pos(), e.guardGoal(t))
+		if t, ok := e.evalClause(e.ct, en.Expr, env); ok {
+			e.oblige("post", en.Tag, en.Tag, x.Pos(), e.guardGoal(t))
+		}
 	}
 	for _, fr := range e.ct.Fresh {
 		b, ok := env.names[fr]
